@@ -113,6 +113,33 @@ def case_strategy(draw):
             "second_life": draw(st.sampled_from([False, False, True]))}
 
 
+def enumerate_cases(tier):
+    """cycles whose frame comes back exactly as it was sent (nobody answered:
+    every working counter is 0, no byte changed) between healthy cycles"""
+    def term(pos, fmmu, big=0):
+        return {"position": pos, "use_fmmu": fmmu,
+                "in": [{"name": "rin", "size": "h", "via": "packet"}],
+                "out": [{"name": "rout", "size": "h", "via": "packet"}],
+                "in_off": 0x1100, "out_off": 0x1800, "in_pad": big,
+                "out_pad": 1}
+    for layout in ([term(1000, True)], [term(1000, False)],
+                   [term(1000, True), term(1004, False)],
+                   [term(1000, False, 1100), term(1004, True)]):
+        for pattern in ([0, 0, 1, 0, 1, 1, 0], [0, 1, 1, 1, 0, 0, 0],
+                        [0, 0, 0, 1, 0, 1, 0]):
+            for out in (5, 0):
+                ti = len(layout) - 1
+                # (inputs and outputs stay the same, so an untouched frame
+                # equals the previous response byte for byte)
+                cycles = [{"input": 77, "output": out, "latency": 0,
+                           "wkc": {}, "bits": [False, False, False],
+                           "echo": bool(e)} for e in pattern]
+                yield {"terminals": layout, "devices": [],
+                       "link": {"in": [ti, "rin", "h"],
+                                "out": [ti, "rout", "h"]},
+                       "cycles": cycles}
+
+
 def strategy(tier):
     return case_strategy()
 
@@ -184,6 +211,8 @@ def run_case(case):
             if tx["n"] - 1 in case.get("lose", ()):
                 return {"lose": True}
             k = cyc["n"]     # this frame will be cycle k
+            if cycles[min(k, ncyc)].get("echo"):
+                return {"echo": True}
             w = cycles[min(k, ncyc)]["wkc"]
             return {"wkc": {int(a): b for a, b in w.items()}} if w else {}
 
